@@ -171,6 +171,43 @@ impl Drop for SlowHandle {
     }
 }
 
+/// A hand-written (sink, handle) pair: the sink hands the entries it buffered to its writer when it is dropped, the
+/// handle - dropped after the sink, as the pair says - is what waits for that writer. Here: the sink's destructor
+/// delivers what it buffered unless the handle is already gone (then nobody is left to take it).
+struct BufferedDest {
+    no: u64,
+    log: GLog,
+    buf: Mutex<Vec<u64>>,
+    handle_gone: Arc<std::sync::atomic::AtomicBool>,
+}
+impl AnyEntrySink for BufferedDest {
+    fn append_any(&self, entry: impl Entry + Send + 'static) {
+        detsim::yield_point();
+        let mut seen = Seen::default();
+        entry.write(&mut seen);
+        self.buf.lock().unwrap().push(seen.id.unwrap_or(u64::MAX));
+    }
+    fn flush_async(&self) -> FlushWait {
+        FlushWait::ready()
+    }
+}
+impl Drop for BufferedDest {
+    fn drop(&mut self) {
+        if !self.handle_gone.load(std::sync::atomic::Ordering::SeqCst) {
+            for id in self.buf.lock().unwrap().drain(..) {
+                self.log.log(GK::Deliver { dest: self.no, id });
+            }
+        }
+    }
+}
+struct BufferedHandle(Arc<std::sync::atomic::AtomicBool>);
+impl Drop for BufferedHandle {
+    fn drop(&mut self) {
+        detsim::yield_point();
+        self.0.store(true, std::sync::atomic::Ordering::SeqCst);
+    }
+}
+
 struct ThreadState {
     slow_helpers: Vec<detsim::thread::JoinHandle<()>>,
     /// how many of them are attach helpers (control operations in flight)
@@ -237,7 +274,9 @@ fn g_ops(plan: &Value, tno: u64, ops: &[Value], log: &GLog, hist: &History, rts:
                     if queue && jb(op, "stream", false) {
                         // the convenience form: attach_to_stream builds the queue itself
                         let (mut s, _ctl) = RecStream::new(dest as u32, hist.clone(), -1);
-                        s.next_cost_ns = 1_000;
+                        // (plan key `next_cost_ns`: a slow device - with the convenience form the queue keeps its documented
+                        // default shutdown timeout of 30 s, which a backlog of 6 - 20 s must fit into)
+                        s.next_cost_ns = ju(op, "next_cost_ns", 1_000);
                         stream_echo(&mut s, op, g, dest);
                         with_global!(g, G => G::attach_to_stream(s))
                     } else if queue {
@@ -258,7 +297,15 @@ fn g_ops(plan: &Value, tno: u64, ops: &[Value], log: &GLog, hist: &History, rts:
                         // `emitting_handle_accepted`; until fix: commit of 12.3 #7 the detach dropped it under the
                         // global's write lock).
                         let refused = ctl.lock().unwrap().attach[gi].is_some();
-                        if !refused && js(op, "handle", "") == "panic" {
+                        // (a buffering pair only where no thread takes a clone of the sink out of the global - `sink()` -
+                        // in this run: a clone that outlives the detach keeps the sink alive past its handle whatever
+                        // the global does)
+                        let clones_taken = ja(plan, "threads").iter().flat_map(|t| t.as_array().map(|a| a.iter()).into_iter().flatten()).any(|o| js(o, "op", "") == "append" && js(o, "how", "") == "sink" && ju(o, "g", 0).min(1) == g);
+                        if !refused && js(op, "handle", "") == "buffered" && !clones_taken {
+                            let gone = Arc::new(std::sync::atomic::AtomicBool::new(false));
+                            let sink = BoxEntrySink::new(BufferedDest { no: dest, log: log.clone(), buf: Mutex::new(vec![]), handle_gone: gone.clone() });
+                            with_global!(g, G => G::attach((sink, BufferedHandle(gone))))
+                        } else if !refused && js(op, "handle", "") == "panic" {
                             with_global!(g, G => G::attach((sink, PanicOnDrop)))
                         } else if !refused && js(op, "handle", "") == "slow" {
                             let (begun, key, gate) = (Arc::new(std::sync::atomic::AtomicBool::new(false)), detsim::fresh_key(), Arc::new(std::sync::atomic::AtomicBool::new(false)));
@@ -798,6 +845,13 @@ pub fn check_c17(plan: &Value, h: &[GEv], hist: &[Ev]) -> Option<Violation> {
                                 if accepted_by_queue && sink_race {
                                     continue;
                                 }
+                                // a buffering sink delivers when it is dropped; one whose attach handle was forgotten is
+                                // never dropped
+                                let buffered_forever = ops.iter().any(|o| o.name == "forget" && o.outcome == "ok" && ju(&o.spec, "g", 0).min(1) == g)
+                                    && allowed.iter().any(|d| ops.iter().any(|o| o.name == "attach" && ju(&o.spec, "dest", 0) == *d && js(&o.spec, "handle", "") == "buffered" && !jb(&o.spec, "queue", false)));
+                                if accepted_by_queue && buffered_forever {
+                                    continue;
+                                }
                                 if accepted_by_queue {
                                     // a queue-backed sink accepted it: it must show up by the end
                                     return Some(Violation::new("accepted_entry_lost", format!("append of entry {id} (global {g}) succeeded but the entry never reached any destination")));
@@ -928,7 +982,7 @@ pub fn gen_c17(rng: &mut Rng) -> Value {
                         }
                         // the handle that comes with a direct sink: plain, one whose destructor panics, one whose
                         // destructor blocks until the harness lets it go
-                        last["handle"] = json!(["plain", "plain", "plain", "panic", "slow", "slow"][(h / 15 % 6) as usize]);
+                        last["handle"] = json!(["plain", "plain", "buffered", "panic", "slow", "slow", "buffered"][(h / 15 % 7) as usize]);
                     }
                 }
                 11 => {
@@ -1079,7 +1133,19 @@ impl Scenario for GlobalDetach {
         let mut threads: Vec<Vec<Value>> = vec![];
         for t in 0..nt {
             let mut ops = vec![];
-            if t == 0 {
+            // one plan in twelve: the convenience form (`attach_to_stream`, the queue keeps its documented defaults) on a
+            // slow device, and a backlog of 6 - 15 s of writing when the attach handle is dropped: well inside the
+            // default shutdown timeout of 30 s, so all of it is written
+            let slow = rng.clone().next_u64();
+            if t == 0 && slow % 12 == 0 {
+                ops.push(json!({"op":"attach","g":0,"dest":20,"queue":true,"stream":true,"next_cost_ns":100_000_000u64}));
+                for _ in 0..(60 + (slow / 12) % 90) {
+                    let id = next_id;
+                    next_id += 1;
+                    ops.push(json!({"op":"append","g":0,"id":id,"how":"try"}));
+                }
+                ops.push(json!({"op":"detach","g":0,"in_panic":false}));
+            } else if t == 0 {
                 for round in 0..(1 + rng.below(3)) {
                     ops.push(json!({"op":"attach","g":0,"dest":20 + round,"queue":true,"stream": rng.chance(0.3)}));
                     if let Some(last) = ops.last_mut() {
